@@ -89,7 +89,7 @@ def handleShm (args res : List String) : Verdict :=
   match args with
   | snorm :: sL :: _cmode :: _seed :: sa :: sx :: sy :: sz :: rest =>
     match snorm.toNat?, sL.toNat?, pfl sa, pfl sx, pfl sy, pfl sz, res.mapM pfl with
-    | some norm, some L, some a, some x, some y, some z, some [v, _gx, _gy, _gz, _vc, mag, _gmag] =>
+    | some norm, some L, some a, some x, some y, some z, some [v, _gx, _gy, _gz, _vc, mag, gmag] =>
       match parseDims L true rest with
       | some (dims, rest') =>
         match parseArrays dims rest' with
@@ -98,7 +98,9 @@ def handleShm (args res : List String) : Verdict :=
           let mv := value full sets x y z a scaleF epsF
           let N := match dims with | d :: _ => d.nmx | [] => 0
           let rel : Float := 1e-12 * (if N + 1 > 32 then Float.ofInt (N + 1) / 32 else 1)
-          let tol := rel * mag + Float.scaleB 1.0 (-450) * (if a > 0 then 1 + a / Float.sqrt (x * x + y * y + z * z) else 1)
+          -- r, cos θ, sin θ are rounded (and the model's hypot differs from libm's in the last bits): |∇V|·r·ε is a legitimate difference
+          let rr := Float.sqrt (x * x + y * y + z * z)
+          let tol := rel * mag + 16 * eps53 * rr * gmag + Float.scaleB 1.0 (-450) * (if a > 0 then 1 + a / rr else 1)
           if !(mag < 1e290) then .skip "overflow"
           else if (v.isNaN && mv.isNaN) || fabs (v - mv) ≤ tol then .ok
           else .bad s!"SphericalEngine::Value: impl={shw v} formula model={shw mv} tolerance {tol} (sum|terms| {mag})"
